@@ -9,19 +9,22 @@ MANIFEST = {
                  "dumps and recorded serialize_to calls; byte differential Builder/Compiler vs Assembler judged by the Lean monitor",
     "text": "Lean proves for every history of emitter calls and node-list edits (add_node, add_after, add_before, remove_node, remove_nodes, "
             "set_cursor, section): the Builder model (cursor node, recursive list surgery, cached _next_section links with dirty flag and "
-            "update_section_links) refines the gap-buffer document of Spec/Builder.lean and keeps its representation invariant (no node twice, "
-            "cursor linked, link cache coherent unless dirty), hence what serialize_to walks is the specification's linearisation of the edited "
-            "document (edit_semantics); an instruction node replays exactly the call that created it for 0..6 operands, every option word, extra "
-            "register and comment (only operands behind op_count are normalised); serialize_to against any destination issues all calls, or "
-            "stops at the first rejected call with that call's error and the destination state of that call; an edit-free sequence of "
-            "unconditionally accepted calls serialises to itself (serialize_replays_partial). The model is tied to /repo by "
-            "running the real x86/x64/a64 Builder and Compiler on the same lines (node list dumped forward and backward after every op, "
-            "serialize_to recorded through a BaseEmitter subclass), and the final CodeHolder (section bytes, labels, relocations, error) is "
-            "compared with a direct Assembler run on the original call sequence (programs without edits) and on the specification's "
-            "linearisation (all programs); the Lean monitor judges every program. Not proved, only tested by that differential: that the "
-            "linearisation of an edit-free program with label/section/typed-data calls is the call sequence itself / its per-section projection "
-            "under section re-entry, and the "
-            "byte equality itself.",
+            "update_section_links) refines the gap-buffer document of Spec/Builder.lean and keeps its representation invariant, hence what "
+            "serialize_to walks is the specification's linearisation of the edited document (edit_semantics); an instruction node replays "
+            "exactly the call that created it (0..6 operands, every option word, extra register, comment); serialize_to against any "
+            "destination issues all calls or stops at the first rejected call with that call's error and state; serialize_replays: every "
+            "edit-free program without section re-entry (instructions, labels and refused double binds, typed data, label addresses/deltas, "
+            "new sections) is serialised as section 0 followed by exactly the calls an Assembler accepts for the same operations "
+            "(Spec/BuilderCalls.lean, written from the Assembler's call-time rules); serialize_groups: with section re-entry every section "
+            "receives exactly its projection of the directly issued call sequence, so any per-section-local assembler abstraction gives equal "
+            "results (sections_equal_of_local); that locality hypothesis is discharged against the CodeHolder model of C03/C04 for "
+            "label-reference-free code (codeholder_data_local) and refuted for cross-section label deltas (label_delta_witness, open finding "
+            "C08-K2). The model is tied to /repo by running the real x86/x64/a64 Builder and Compiler on the same lines (node list dumped "
+            "forward and backward after every op, serialize_to recorded through a BaseEmitter subclass); the final CodeHolder (section bytes, "
+            "labels, relocations, error) and the image after flatten/resolve/relocate_to_base are compared with a direct Assembler run on the "
+            "original call sequence (programs without edits) and on the specification's linearisation (all programs); the Lean monitor judges "
+            "every program. Compiler programs with function nodes are compared with Assembler + emit_prolog/emit_epilog (differential only). "
+            "Not proved: embed_const_pool inside serialize_replays/groups, and the byte equality itself (rests on the assembler).",
     "note": "Trusted: Lean kernel; Spec/Builder.lean as the meaning of 'edited sequence'; harness/driver/diff. Not modelled: the assembler "
             "itself (C01-C03), ConstPool layout (C19), passes of the Compiler (the RA pass runs on an empty function list), prev/next pointers "
             "(abstracted to a list; tied by the forward/backward dumps), data type ids 44..199. Byte equality is differential (tested), the "
@@ -96,7 +99,9 @@ class Gen:
         self.bound = set()
         self.nnodes = 1
         self.multi = cls in ("sections", "edits+sections", "xsec")
-        self.local_labels = cls != "xsec"
+        # labels used across sections in half of the multi-section programs (defect #18 is repaired: new_fixup routes such references
+        # to the cross-section list), section-local in the others
+        self.local_labels = cls != "xsec" and rng.random() < 0.5
         # how often a program contains calls the assembler is likely to refuse (finalize stops at the first one):
         # one third of the programs are noisy, the others mostly clean so that whole programs reach the byte comparison
         self.noise = 1.0 if rng.random() < 0.33 else 8.0
@@ -255,6 +260,63 @@ class Gen:
         return Program(self.arch, emitter, enc, self.ops, self.cls)
 
 
+def gen_fn_programs(rng, tier, menus):
+    """Compiler with function nodes and physical registers only: 1..3 functions of label-free instructions and data"""
+    progs = []
+    for _ in range(40 if tier == "quick" else 600):
+        arch = rng.choice(("x64", "x64", "x86", "a64"))
+        g = Gen(rng, menus, arch, "plain")
+        g.noise = 1000.0                                    # no deliberately refused calls: the RA pass would report them first
+        g.insts = [m for m in g.insts if m[0] not in ("bad", "gap", "badreg", "ret", "jmpr", "push", "movsb", "stosd", "cmpxchg8b", "cmpxchg16b")
+                   and not any(t[0] in "LMN" for t in m[2])]
+        ops = []
+        for _f in range(rng.randrange(1, 4)):
+            g.ops = []
+            for _i in range(rng.randrange(0, 8)):
+                r = rng.random()
+                if r < 0.8:
+                    g.gen_inst()
+                elif r < 0.9:
+                    g.emit("embed " + rand_hex(rng, rng.choice((1, 2, 4, 8))))
+                else:
+                    g.emit("comment t%d" % rng.randrange(100))
+            ops += ["func"] + [o for o in g.ops if not o.startswith("extra") and not o.startswith("opts")] + ["fret", "endfunc"]
+        progs.append(Program(arch, "compilerfn", rng.choice((0, 0, 1)), ops, "func"))
+    return progs
+
+
+def pipeline_fn(h, progs):
+    drv = [str(vlib.driver_path()), "C08"]
+    res = run_batch([str(h)], [p.lines() for p in progs])
+    results, mon, idx = [dict(verdict=None, corr=None, kind=None) for _ in progs], [], []
+    for i, (p, b) in enumerate(zip(progs, res)):
+        if isinstance(b, tuple) or b is None:
+            results[i]["verdict"] = "CRASH " + ((b[1] if b else "no output") or "")
+            results[i]["kind"] = "crash"
+            continue
+        results[i]["b"] = b
+        ml = ["mbegin " + p.arch]
+        for l in b:
+            if l.startswith("F "):
+                ml.append("mFB " + l[2:])
+            elif l.startswith("D "):
+                ml.append("mDB " + l)
+            elif l.startswith("X F "):
+                ml.append("mFA " + l[4:])
+            elif l.startswith("X D "):
+                ml.append("mDA " + l[2:])
+        ml.append("mjudgecode")
+        mon.append(ml)
+        idx.append(i)
+    out, rc, err = vlib.run_lines(drv, [l for m in mon for l in m])
+    for k, i in enumerate(idx):
+        v = out[k] if k < len(out) else "DRIVER monitor protocol " + err[-200:]
+        results[i]["verdict"] = v
+        if v != "good":
+            results[i]["kind"] = "func-" + classify(v)
+    return results
+
+
 def gen_programs(rng, tier, menus):
     n = 420 if tier == "quick" else 7000
     progs = []
@@ -266,6 +328,9 @@ def gen_programs(rng, tier, menus):
         progs.append(Program(arch, "builder", 0, ["newlabel", "elabel L0 3", "edelta L0 L0 3", "elabel L7 3", "elabel L7 8"], "corner"))
         progs.append(Program(arch, "builder", 0, ["newsection", "section S1", "embed 01", "section S0", "embed 02", "section S1", "embed 03",
                                                   "remove 1", "section S0", "embed 04", "addbefore 1 0", "section S1", "embed 05"], "corner"))
+    # witness of the open finding C08-K2 (cross-section label delta under section re-entry)
+    progs.append(Program("x64", "builder", 0, ["newlabel", "newlabel", "newsection", "section S1", "edelta L1 L0 8", "section S0",
+                                               "bind L0", "embed 0102", "bind L1"], "corner"))
     classes = ["plain"] * 4 + ["sections"] * 3 + ["edits"] * 3 + ["edits+sections"] * 3 + ["xsec"]
     for i in range(n):
         arch = rng.choice(("x64", "x64", "x86", "a64"))
@@ -408,13 +473,13 @@ def pipeline(h, progs):
                 ml.append("mC " + l[2:])
             elif l.startswith("F "):
                 ml.append("mFB " + l[2:])
-            elif l.startswith("D "):
-                ml.append("mDB " + l[2:])
+            elif l.startswith("D ") or l.startswith("I "):
+                ml.append("mDB " + l)
         for l in a:
             if l.startswith("F "):
                 ml.append("mFA " + l[2:])
-            elif l.startswith("D "):
-                ml.append("mDA " + l[2:])
+            elif l.startswith("D ") or l.startswith("I "):
+                ml.append("mDA " + l)
         # call-time errors: what the Builder refused at call time the Assembler must refuse with the same code (`~` lines)
         if how == "verbatim":
             ar = [l for l in a if l.startswith("R ")][1:1 + len(p.ops)]
@@ -440,6 +505,10 @@ def pipeline(h, progs):
             results[i]["verdict"] = out[k] if out[k] == "good" else out[k] + " [assembler given the %s]" % how
             if out[k] != "good":
                 results[i]["kind"] = classify(out[k])
+                a = results[i]["a"][how]
+                b = results[i]["b"]
+                results[i]["image_equal"] = [l for l in a if l.startswith("I ")] == [l for l in b if l.startswith("I ")]
+                results[i]["how"] = how
     return results
 
 
@@ -459,20 +528,21 @@ def classify(verdict):
     return "other"
 
 
-def uses_cross_section_labels(s_lines):
-    """the class behind defect #18 (C03): in the edited sequence a label is referenced from a section other than the one it is bound in"""
+def has_cross_section_delta(s_lines):
+    """finding C08-K2: an embed_label_delta issued in one section whose two labels are bound together in another section. Issued before the
+    binds the Assembler records a relocation expression, issued after them it stores the value at once; the Builder's section grouping
+    changes which of the two happens, so section bytes / relocation records differ although the relocated image is the same."""
     cur = 0
-    bound_in, refs = {}, []
+    bound_in, deltas = {}, []
     for o in s_lines:
         w = o.split()
         if w[0] == "section" and w[1][1:].isdigit():
             cur = int(w[1][1:])
         elif w[0] == "bind":
             bound_in[w[1]] = cur
-        for t in w[1:]:
-            if t[0] in "LMN" and t[1:].isdigit() and w[0] != "bind":
-                refs.append(("L" + t[1:], cur))
-    return any(l in bound_in and bound_in[l] != s for l, s in refs)
+        elif w[0] == "edelta":
+            deltas.append((w[1], w[2], cur))
+    return any(a in bound_in and b in bound_in and bound_in[a] == bound_in[b] != s for a, b, s in deltas)
 
 
 def run(res):
@@ -480,7 +550,9 @@ def run(res):
     res.assumptions += [
         "prev/next pointers of the node list are abstracted to a list of node ordinals; tied by the forward and backward dump after every op",
         "the assembler (instruction encoding, fixups, relocations) is a black box here: byte equality Builder vs Assembler is differential",
-        "Compiler: only the BaseBuilder path with physical registers and no function nodes (the RA pass has nothing to do)",
+        "Compiler without function nodes goes through model, monitor and differential like the Builder; Compiler WITH function nodes "
+        "(func / ret / end_func, physical registers only, label-free bodies) is differential only: its code must equal an Assembler given "
+        "bind(func) + emit_prolog(frame) + the same calls + bind(exit) + emit_epilog(frame); the RA pass itself is not modelled",
         "ConstPool layout taken from the real ConstPool (distinct equal-sized items); data type ids 44..199 not generated",
         "API preconditions (add_* of an unlinked node next to a linked reference, remove_nodes with `last` reachable from `first`, "
         "set_cursor of a linked node) are respected: lines violating them are answered `pre` by both sides",
@@ -500,6 +572,9 @@ def run(res):
     menus = load_menus(h)
     progs = gen_programs(rng, res.tier, menus)
     results = pipeline(h, progs)
+    fprogs = gen_fn_programs(rng, res.tier, menus)
+    progs = progs + fprogs
+    results = results + pipeline_fn(h, fprogs)
 
     kinds, nontriv, nops, bad, corr = {}, set(), 0, [], []
     for p, r in zip(progs, results):
@@ -536,14 +611,14 @@ def run(res):
     for p, r in bad:
         kind = r["kind"] or "other"
         key = kind
-        if kind in ("code", "error") and uses_cross_section_labels(r.get("s", [])):
-            key = "xsection-bound-label-fixup"
+        if kind == "code" and r.get("how") == "verbatim" and r.get("image_equal") and has_cross_section_delta(r.get("s", [])):
+            key = "xsection-label-delta"
         if key in reported:
             continue
         reported.add(key)
         ops = shrink(h, p, r)
         sp = Program(p.arch, p.emitter, p.enc, ops, p.cls)
-        v = pipeline(h, [sp])[0]["verdict"]
+        v = (pipeline_fn if p.emitter == "compilerfn" else pipeline)(h, [sp])[0]["verdict"]
         res.violation("%s %s %s: %s" % (p.arch, p.emitter, kind, v[:600]),
                       {"ops": sp.lines(), "verdict": v, "how": "tools/check.py replay <this file>"},
                       found_input=(kind != "protocol"), key=key)
@@ -561,7 +636,7 @@ def shrink(h, p, r):
 
     def fails(ops):
         q = Program(p.arch, p.emitter, p.enc, ops, p.cls)
-        rr = pipeline(h, [q])[0]
+        rr = (pipeline_fn if p.emitter == "compilerfn" else pipeline)(h, [q])[0]
         return rr["verdict"] != "good" and rr["kind"] == kind
 
     if os.environ.get("VERIF_NO_SHRINK"):
@@ -583,12 +658,12 @@ def replay(data):
     ops = [l for l in lines if l.split()[0] not in ("begin", "finalize", "end")]
     w = lines[0].split()
     p = Program(w[1], w[2], int(w[3], 16), ops, "replay")
-    r = pipeline(h, [p])[0]
+    r = (pipeline_fn if p.emitter == "compilerfn" else pipeline)(h, [p])[0]
     for l in r.get("b", []):
         print("builder  ", l)
     for how, a in r.get("a", {}).items():
         for l in a:
-            if l[0] in "FD":
+            if l[0] in "FDI":
                 print("assembler (%s)" % how, l)
     print("verdict:", r["verdict"])
     return 0 if r["verdict"] == "good" else 1
